@@ -25,6 +25,8 @@ FAMILIES = [
     ([], ['a', 'b']),
     (['a', ''], []),
     (['b c', 'b c', 'c'], ['c b', '', '']),
+    # different strings with identical padded 2-gram bags ('abaca' / 'acaba'), near-duplicates, repeated values
+    (['abaca', 'acaba', 'b', 'abaca x'], ['acaba', 'abaca', 'abaca', 'c', 'acaba', 'abaca x']),
 ]
 UNSTABLE = ('ftables:Prefix', 'ftables:Position', 'ftables:Suffix')
 
@@ -364,7 +366,8 @@ def layers(tier):
                     '6 entry points on tables / candidate sets of n = 1..%d rows with exactly one output row per '
                     'input row x every n_jobs in 1..n+1 (all chunk boundaries split_table can produce for these '
                     'sizes): no row lost or duplicated' % (nmax - 1), min_nontrivial=1000, chunksize=1))
-    jobs = [{'ep': ep, 'family': fi} for ep in ALL_EPS for fi in (1, 5, 2, 3)]
+    jobs = [{'ep': ep, 'family': fi} for ep in ALL_EPS for fi in (1, 5, 2, 3)] + \
+        [{'ep': ep, 'family': 6} for ep in ('join:EDIT_DISTANCE', 'join:JACCARD', 'candset:Size', 'matcher')]
     Ls.append(Layer('presentation', 'checks.c10:w_perm', jobs,
                     'n_jobs=1: all row permutations of either table (3x4-row family: 6+24, plus joint ones), '
                     'index relabelings (reversed, string, duplicate labels), unrelated extra columns, repeated '
